@@ -84,6 +84,14 @@ fn slice(s: &S, a: Option<usize>, bb: Option<usize>, c: Option<usize>) -> S {
     }
     out
 }
+/// slices with negative bounds: a negative bound counts code points from the end (clamped at 0)
+fn slice_signed(s: &S, a: Option<i64>, bb: Option<i64>, c: usize) -> S {
+    let n = s.len() as i64;
+    let fix = |x: i64| -> usize { if x < 0 { (n + x).max(0) as usize } else { x as usize } };
+    slice(s, a.map(fix), bb.map(fix), Some(c))
+}
+const NEG_A: [i64; 6] = [-9, -3, -2, -1, 0, 1];
+const NEG_B: [i64; 6] = [-9, -2, -1, 1, 2, 9];
 fn pad(s: &S, width: usize, left_align: bool) -> S {
     if s.len() >= width {
         return s.clone();
@@ -97,6 +105,8 @@ fn unary_src(s: &S) -> String {
     format!(
         "local s = {q}; {{ len: std.length(s), chars: std.stringChars(s), idx: [s[i] for i in std.range(0, std.length(s) - 1)], \
          sl: [s[a:b:c] for a in [0, 1, 2] for b in [0, 1, 2, 3, 9] for c in [1, 2]], sl_open: [s[1:], s[:1], s[::2], s[:], s[2:], s[:2:1]], \
+         sln: [s[a:b] for a in [-9, -3, -2, -1, 0, 1] for b in [-9, -2, -1, 1, 2, 9]] + [s[a:] for a in [-9, -3, -2, -1]] + [s[:b] for b in [-9, -3, -2, -1]] + [s[-3::2], std.slice(s, -2, -1, 1), std.slice(s, -3, null, null)], \
+         slarr: std.all([s[a:b:c] == std.join(\"\", std.stringChars(s)[a:b:c]) for a in [-3, -1, 0, 1] for b in [-2, -1, 2, 9] for c in [1, 2]]), \
          substr: [std.substr(s, f, l) for f in [0, 1, 2, 5] for l in [0, 1, 2, 9]], rev: std.reverse(s), \
          up: std.asciiUpper(s), low: std.asciiLower(s), map: std.map(function(c) c + \"x\", s), flat: std.flatMap(function(c) c + c, s), \
          mwi: std.mapWithIndex(function(i, c) [i, c], s), rep: [std.repeat(s, n) for n in [0, 1, 2]], join: std.join(s, [\"p\", \"q\", \"r\"]), \
@@ -130,12 +140,32 @@ fn unary_model(s: &S) -> J {
     let low: S = s.iter().map(|c| c.to_ascii_lowercase()).collect();
     let joined: S = { let mut v: S = vec!['p']; v.extend(s); v.push('q'); v.extend(s); v.push('r'); v };
     let w = |x: S| { let mut x = x; x.push('|'); js(&x) };
+    let sln: Vec<J> = {
+            let mut v = Vec::new();
+            for a in NEG_A {
+                for bb in NEG_B {
+                    v.push(js(&slice_signed(s, Some(a), Some(bb), 1)));
+                }
+            }
+            for a in [-9i64, -3, -2, -1] {
+                v.push(js(&slice_signed(s, Some(a), None, 1)));
+            }
+            for bb in [-9i64, -3, -2, -1] {
+                v.push(js(&slice_signed(s, None, Some(bb), 1)));
+            }
+            v.push(js(&slice_signed(s, Some(-3), None, 2)));
+            v.push(js(&slice_signed(s, Some(-2), Some(-1), 1)));
+            v.push(js(&slice_signed(s, Some(-3), None, 1)));
+            v
+        };
     json!({
         "len": s.len(),
         "chars": chars,
         "idx": chars,
         "sl": sl,
         "sl_open": sl_open,
+        "sln": sln,
+        "slarr": true,
         "substr": substr,
         "rev": s.iter().rev().map(|c| J::String(c.to_string())).collect::<Vec<_>>(),
         "up": js(&up),
